@@ -228,7 +228,10 @@ class Body:
     def pred(self):
         if self._pred is None:
             p = [[] for _ in self.blocks]
+            live = self.live  # blocks cut off by splicing / threading (and rustc's own dead blocks) are nobody's predecessor
             for i, ss in enumerate(self.succ):
+                if i not in live:
+                    continue
                 for s in ss:
                     p[s].append(i)
             self._pred = p
